@@ -27,10 +27,7 @@ PROP = 'C19'
 
 S_C19A = ('S-C19a', 'annotation: a label whose colour packs to annotation value 0 (black, R=G=B=0) is written as 0 = '
           '"unlabeled" and reads back as -1 (format limitation)')
-S_C19B = ('S-C19b', 'write_annot with a colour table of an integer dtype narrower than 32 bits (e.g. uint8 RGBT): _pack_rgb '
-          'computes 2**8 and 2**16 in that dtype (overflow to 0), wrong annotation values are written and the labels '
-          'read back wrong, silently')
-S_C01A = ('S-C01a', 'MGHImage of a 1-D or 2-D array reloads with its shape padded to 3-D (values equal)')
+S_C01A = ('S-C01a-C19', 'MGHImage of a 1-D or 2-D array reloads with its shape padded to 3-D (values equal)')
 
 
 def hx(b):
@@ -370,7 +367,8 @@ def run_morph(chk, path, cases=None):
 
 
 # --------------------------------------------------------------------------- annotation
-DTYPES = {'int64': '-', 'int32': '32:1', 'uint8': '8:0', 'int16': '16:1', 'uint16': '16:0'}
+DTYPES = {'int64': '-', 'int32': '32:1', 'uint8': '8:0', 'int8': '8:1', 'int16': '16:1', 'uint16': '16:0', 'uint32': '32:0'}
+NARROW = ['uint8', 'int8', 'int16', 'uint16']
 
 
 def exact_pack(row):
@@ -381,31 +379,40 @@ def gen_annot(chk):
     rng = chk.rng
     cases = []
 
-    def table(n, black=False):
+    def table(n, black=False, top=256):
         while True:
-            rows = [[rng.randrange(256) for _ in range(4)] for _ in range(n)]
+            rows = [[rng.randrange(top) for _ in range(4)] for _ in range(n)]
             if black:
                 rows[rng.randrange(n)][:3] = [0, 0, 0]
             packs = [exact_pack(r) for r in rows]
             if len(set(packs)) == n and (black or 0 not in packs):
                 return rows
-    names_pool = ['unknown', 'bankssts', 'G_and_S_frontomargin', 'é', '', 'n' * 300, 'a b', 'x\x00y']
+    # str names whose UTF-8 encoding is 2 or more bytes longer than the character count, too
+    names_pool = ['unknown', 'bankssts', 'G_and_S_frontomargin', 'é', '', 'n' * 300, 'a b', 'éü', '中文', 'größe-ßß', 'x\x00y']
     k = 0
     for n in range(1, 6):
         for nl in (1, 2, 5):
             for fill in (True, False):
                 rows = table(n)
                 labels = [((i * 3 + k) % (n + 1)) - 1 for i in range(nl)]
-                cases.append(dict(rows=rows, labels=labels, names=[names_pool[(k + j) % 7] for j in range(n)], fill=fill,
+                cases.append(dict(rows=rows, labels=labels, names=[names_pool[(k + j) % 10] for j in range(n)], fill=fill,
                                   cols=5 if (not fill or k % 2) else 4, dtype='int64' if k % 3 else 'int32', probe=None))
                 k += 1
-    # the two cases that leave the quantifier on purpose
+    # the case that leaves the quantifier on purpose (S-C19a)
     cases.append(dict(rows=[[0, 0, 0, 0], [10, 20, 30, 0], [1, 0, 0, 255]], labels=[0, 1, 2, -1, 0], names=['black', 'b', 'c'],
                       fill=True, cols=4, dtype='int64', probe='black'))
+    # narrow integer colour tables (the repaired S-C19b): they must simply round-trip
     cases.append(dict(rows=[[10, 20, 30, 0], [10, 40, 50, 0], [200, 1, 2, 0]], labels=[0, 1, 2, -1, 1], names=['a', 'b', 'c'],
-                      fill=True, cols=4, dtype='uint8', probe='narrow'))
+                      fill=True, cols=4, dtype='uint8', probe=None))
     cases.append(dict(rows=[[10, 20, 30, 0], [10, 40, 50, 0], [200, 1, 200, 0]], labels=[0, 1, 2, -1, 1], names=['a', 'b', 'c'],
-                      fill=True, cols=4, dtype='int16', probe='narrow'))
+                      fill=True, cols=4, dtype='int16', probe=None))
+    for dt in NARROW + ['uint32']:
+        for n in (1, 3, 6):
+            cases.append(dict(rows=table(n, top=128 if dt == 'int8' else 256), labels=[(i % (n + 1)) - 1 for i in range(2 * n + 1)],
+                              names=['n%d' % j for j in range(n)], fill=True, cols=4, dtype=dt, probe=None))
+    # multi-byte names, given as str and as bytes in the same table
+    cases.append(dict(rows=table(4), labels=[0, 1, 2, 3, -1], names=['éü', '中文', 'abc', 'ÄÖÜäöü'], as_bytes=[False, False, True, True],
+                      fill=True, cols=4, dtype='int64', probe=None))
     # refusals
     cases.append(dict(rows=table(3), labels=[], names=['a', 'b', 'c'], fill=True, cols=4, dtype='int64', probe=None))
     cases.append(dict(rows=table(3), labels=[0, 3], names=['a', 'b', 'c'], fill=True, cols=4, dtype='int64', probe=None))
@@ -413,9 +420,14 @@ def gen_annot(chk):
     for _ in range(chk.n(2000, 16000)):
         n = rng.choice([1, 2, 3, 5, 9, 36])
         fill = rng.random() < 0.7
-        cases.append(dict(rows=table(n), labels=[rng.randrange(-1, n) for _ in range(rng.choice([1, 2, 5, 17, 40]))],
-                          names=[rng.choice(names_pool[:7]) for _ in range(n)], fill=fill,
-                          cols=5 if not fill else rng.choice([4, 5]), dtype=rng.choice(['int64', 'int64', 'int32']), probe=None))
+        dt = rng.choice(['int64', 'int64', 'int32'])
+        if fill and rng.random() < 0.35:
+            dt = rng.choice(NARROW + ['uint32'])      # 4 columns only: a packed value does not fit a narrow type
+        narrow = dt in NARROW
+        cases.append(dict(rows=table(n, top=128 if dt == 'int8' else 256),
+                          labels=[rng.randrange(-1, n) for _ in range(rng.choice([1, 2, 5, 17, 40]))],
+                          names=[rng.choice(names_pool[:10]) for _ in range(n)], fill=fill,
+                          cols=5 if not fill else (4 if narrow else rng.choice([4, 5])), dtype=dt, probe=None))
     return cases
 
 
@@ -434,7 +446,9 @@ def run_annot(chk, path, cases=None):
         try:
             with warnings.catch_warnings():
                 warnings.simplefilter('ignore')
-                fio.write_annot(path, labels, ctab, c['names'], fill_ctab=c['fill'])
+                flags = c.get('as_bytes') or [(i + j) % 3 == 0 for j in range(len(c['names']))]
+                api_names = [nm.encode() if b else nm for nm, b in zip(c['names'], flags)]
+                fio.write_annot(path, labels, ctab, api_names, fill_ctab=c['fill'])
             o['raw'] = open(path, 'rb').read()
             try:
                 rl, rc, rn = fio.read_annot(path)
@@ -459,6 +473,7 @@ def run_annot(chk, path, cases=None):
                   tag=f"annot:fill_ctab={c['fill']}",
                   sample={'kind': 'annot', 'n_labels': len(c['rows']), 'vnum': len(c['labels']), 'fill_ctab': c['fill']} if i == 5 else None)
         chk.tagc('annot:has_unlabeled' if -1 in c['labels'] else 'annot:all_labeled')
+        chk.tagc('annot:ctab_dtype=' + c['dtype'])
     got = run_model(PROP, lines)
 
     def fmt_read(labels, ctab, names):
@@ -495,9 +510,7 @@ def run_annot(chk, path, cases=None):
                     pred = 'names differ'
             if pred:
                 packs = [exact_pack(r) for r in c['rows']]
-                if np.dtype(c['dtype']).itemsize < 4:
-                    known = S_C19B
-                elif 'labels read back' in pred and all(
+                if 'labels read back' in pred and all(
                         (a == b) or (a >= 0 and packs[a] == 0 and b == -1) for a, b in zip(c['labels'], o.get('labels', []))):
                     known = S_C19A
         finish_case(chk, 'annot', c, dis, pred, mw[:200], o, known=known)
@@ -673,7 +686,7 @@ def vm(chk):
     pairs = [(f'match write_morph [3;1] [1065353216;0;4290772992] 7 with Ok b => list_eqb b {hexl(got["0"])} | _ => false end', 'mw'),
              ('match write_morph [2;2] [1;2;3;4] 0 with Err ErrValue => true | _ => false end' if got['1'] == 'err value' else 'false', 'mw bad'),
              (f'match write_annot None [0;1;-1] [[10;20;30;0];[10;40;50;0]] [[97];[98]] true with Ok b => list_eqb b {hexl(got["2"])} | _ => false end', 'aw'),
-             (f'match write_annot (Some (8, false)) [0;1] [[10;20;30;0];[10;40;50;0]] [[97];[98]] true with Ok b => list_eqb b {hexl(got["3"])} | _ => false end', 'aw uint8'),
+             (f'match write_annot (Some (8, false)) [0;1] [[10;20;30;0];[10;40;50;0]] [[97];[98]] true with Ok b => list_eqb b {hexl(got["3"])} | _ => false end', 'aw uint8 table'),
              (f'list_eqb (write_geometry [104;105] 1 1 [1065353216;0;2139095040] [0;0;0] None) {hexl(got["4"])}', 'gw'),
              (f'list_eqb (mgh_write (mkM [1;2;1;1;1;0;0] 1 [1;2;3;4;5;6;7;8;9;10;11;12;13;14;15] [5;4;3;2;1]) [1;2]) {hexl(got["5"])}', 'hw')]
     # readers on the model's own small files
@@ -694,8 +707,8 @@ def vm(chk):
 
 
 UNPROVED = [
-    'C19_annot_roundtrip needs "packed colour values non-zero" (refuted without: C19_annot_black_refuted = S-C19a) and a '
-    'colour-table dtype of >= 25 bits (refuted for uint8: C19_annot_narrow_dtype_refuted = candidate finding S-C19b)',
+    'C19_annot_roundtrip needs "packed colour values non-zero" (refuted without: C19_annot_black_refuted = S-C19a); it '
+    'holds for every integer dtype of the colour table (C19_pack_rgb_any_dtype; S-C19b is repaired, its probe runs each time)',
     'MGH: 1-D/2-D shapes come back padded to 3-D (C19_mgh_lowdim_refuted = S-C01a); the relation between the affine and the '
     'header delta/Mdc/Pxyz_c (voxel_sizes, float32 casts) and the data conversion (array_to_file, C01) are not modelled - '
     'C19_mgh_shape_zooms is about the byte layout of header, data chunk and footer and about shape/zoom bookkeeping',
@@ -713,8 +726,8 @@ def run(chk: Check):
                 'bit patterns incl. +-0, subnormals, max, inf, quiet NaN payloads, float32/float64 input, faces int32/int64 '
                 'incl. out-of-range ids, 6 stamps (empty, unicode, 300 chars), volume_info none/empty/full; morph: the four '
                 'accepted shapes x n in 0..5 + rejected shapes + fnum bounds + random; annot: 1..36 colours with pairwise '
-                'distinct non-zero packed values, labels in {-1}+[0,n), fill_ctab both ways, 4/5 columns, long/empty/unicode '
-                'names, plus one black-colour case (S-C19a), two narrow-dtype tables (S-C19b) and three refusals; MGH: 1-5 '
+                'distinct non-zero packed values, labels in {-1}+[0,n), fill_ctab both ways, 4/5 columns, long/empty/multi-byte UTF-8 (given as str or bytes) '
+                'names, colour tables of dtype int64/int32/uint32 and the narrow uint8/int8/int16/uint16, plus one black-colour case (S-C19a) and three refusals; MGH: 1-5 '
                 'dims x 4 dtypes x zooms/TR/footer bit patterns, .mgz for a fifth; label files: direct read check. Distinct by '
                 'the full input')
     chk.assumptions = ['float casts (float64 -> float32, float32 -> float64), "%.10g" formatting and float()/int() parsing, utf-8 '
